@@ -9,7 +9,7 @@ import hashlib, json, os, shutil, subprocess, sys, time, glob, tempfile
 
 VERIF = os.path.dirname(os.path.dirname(os.path.abspath(__file__)))
 REPO = os.environ.get('VERIF_REPO', '/repo')
-BUILD = os.path.join(VERIF, 'build')
+BUILD = os.path.join(VERIF, 'build') if REPO == '/repo' else os.path.join(VERIF, 'build', 'alt-' + hashlib.sha1(REPO.encode()).hexdigest()[:8])
 EVIDENCE = os.path.join(VERIF, 'evidence')
 REPLAYS = os.path.join(VERIF, 'replays')
 MODPATH = 'github.com/robustirc/robustirc'
